@@ -195,23 +195,42 @@ func mathRad(L *LState) int {
 	return 1
 }
 
+// stateRand returns the pseudo-random generator of this state (shared by its coroutines, kept
+// in the registry). Every state has its own: drawing or seeding in one state does not change the
+// sequence another state gets from its seed. Until math.randomseed is called the generator is
+// seeded from the process-wide source, as before.
+func stateRand(L *LState) *rand.Rand {
+	reg := L.Get(RegistryIndex).(*LTable)
+	if ud, ok := reg.RawGetString("_RANDOM").(*LUserData); ok {
+		if r, ok := ud.Value.(*rand.Rand); ok {
+			return r
+		}
+	}
+	r := rand.New(rand.NewSource(rand.Int63()))
+	ud := L.NewUserData()
+	ud.Value = r
+	reg.RawSetString("_RANDOM", ud)
+	return r
+}
+
 func mathRandom(L *LState) int {
+	r := stateRand(L)
 	switch L.GetTop() {
 	case 0:
-		L.Push(LNumber(rand.Float64()))
+		L.Push(LNumber(r.Float64()))
 	case 1:
 		n := L.CheckInt(1)
-		L.Push(LNumber(rand.Intn(n) + 1))
+		L.Push(LNumber(r.Intn(n) + 1))
 	default:
 		min := L.CheckInt(1)
 		max := L.CheckInt(2) + 1
-		L.Push(LNumber(rand.Intn(max-min) + min))
+		L.Push(LNumber(r.Intn(max-min) + min))
 	}
 	return 1
 }
 
 func mathRandomseed(L *LState) int {
-	rand.Seed(L.CheckInt64(1))
+	stateRand(L).Seed(L.CheckInt64(1))
 	return 0
 }
 
